@@ -210,6 +210,10 @@ class Engine(StmtMixin, EvalMixin, Interp):
         @reg("reversed")
         def _rev(interp, args, kw):
             s = interp.resolve(args[0])
+            if isinstance(s, SymStr):
+                n = s.length
+                return SymIter(LazySeq(n, lambda i, _s=s, _n=n: SymChar(z3.Select(_s.arr, _n - 1 - i),
+                                                                           getattr(_s, "alphabet", None)), "reversed-chars"), 0)
             if isinstance(s, (SList, LazySeq)):
                 if isinstance(s, SList):
                     s = s.copy()
@@ -647,11 +651,30 @@ class Engine(StmtMixin, EvalMixin, Interp):
                 if any(is_sym(a) or isinstance(a, (Obj, Opaque, EnumVal)) for a in list(args) + list(kwargs.values())):
                     return Opaque("str")
                 return v.format(*args, **kwargs)
+            if name == "join" and v == "":
+                src = self.resolve(args[0])
+                sq, _c = self._as_sequence(src)
+                if isinstance(sq, LazySeq) and not isinstance(sq.length, int):
+                    sq = self.iter_remaining(src) if isinstance(src, SymIter) else sq
+                    i = z3.Int("jn!i")
+                    ch = sq.get(i)
+                    if not isinstance(ch, SymChar):
+                        raise Unsupported("join over a symbolic-length sequence of non-characters")
+                    st = SymStr(z3.Lambda([i], ch.code), sq.length)
+                    st.alphabet = ch.alphabet
+                    return st
             if name == "join":
                 items = self.iterate_concrete(args[0])
                 items = [self.resolve(i) for i in items]
                 if all(isinstance(i, str) for i in items):
                     return v.join(items)
+                if any(isinstance(i, SymStr) for i in items) and all(isinstance(i, (str, SymStr)) for i in items):
+                    seq = []
+                    for k, it in enumerate(items):
+                        if k and v:
+                            seq.append(v)
+                        seq.append(it)
+                    return self.symstr_concat(seq)
                 if any(not isinstance(i, (str, Opaque)) for i in items):
                     raise PyExc("TypeError", "sequence item: expected str instance")
                 from .symex_eval import make_text
